@@ -143,6 +143,7 @@ def instantiate(quants, ground, rounds=None, max_inst=4000):
     seen = set()
     index = {}
     fresh = collect(ground, seen, index)
+    table_added = False
     for _ in range(rounds):
         new = []
         # definitional unfolding of the applications that appeared in the previous round
